@@ -145,6 +145,12 @@ def main(argv):
         obs = [o for o in obs if o.tier in ('quick', 'thorough')]
     if only:
         obs = [o for o in obs if only in o.oid]
+    # per-obligation budget cap (seconds): a thorough run of one property stays within about an hour on 16 cores;
+    # an obligation that does not finish inside it is reported inconclusive, never as held
+    cap = int(os.environ.get('VERIF_TIMEOUT_CAP', '1500'))
+    for o in obs:
+        if o.timeout and o.timeout > cap:
+            o.timeout = cap
     known = load_known()
 
     # ---- phase 0: preflight (conformance of environment doubles against the real libraries) -------------
